@@ -546,3 +546,6 @@ func (t *Transport) build(req *http.Request, wr *Response) *http.Response {
 	}
 	return resp
 }
+
+// Seq returns the number of requests this transport has been asked to carry.
+func (t *Transport) Seq() int { return t.seq }
